@@ -20,9 +20,11 @@ Labels(k) ==
          {"authentic", "wrong_key", "bad_sig", "sig_by_other_key", "flipped_v", "other_salt"}
     [] k \in {"mutable", "mutable_salt"} ->
          {"authentic", "wrong_key", "other_salt", "bad_sig", "flipped_seq", "flipped_v", "sig_by_other_key", "as_immutable", "short_key", "replay_of_authentic"}
-    [] k = "signed_peers" -> {"authentic", "all_bad", "wrong_infohash", "mixed_first_bad", "mixed_last_bad", "mixed_middle_bad", "wrong_key"}
+    [] k = "signed_peers" -> {"authentic", "all_bad", "wrong_infohash", "mixed_first_bad", "mixed_last_bad", "mixed_middle_bad", "wrong_key",
+                              \* 14 records (an honest node sends at most 10): all authentic / one forged behind the tenth / the last
+                              "long_authentic", "long_bad_11", "long_bad_last", "long_bad_12_victim"}
 \* the validation the code is supposed to perform
-Valid(k, lb) == lb = "authentic"
+Valid(k, lb) == lb \in {"authentic", "long_authentic"}
 
 Init == /\ label \in [Responders -> Labels(Kind)] /\ pending = Responders /\ yielded = {}
 Deliver(r) == /\ r \in pending /\ pending' = pending \ {r}
@@ -31,5 +33,5 @@ Deliver(r) == /\ r \in pending /\ pending' = pending \ {r}
 Lose(r) == r \in pending /\ pending' = pending \ {r} /\ UNCHANGED <<label, yielded>>
 Next == \E r \in Responders : Deliver(r) \/ Lose(r)
 Spec == Init /\ [][Next]_<<label, pending, yielded>>
-C02_Authentic == \A r \in yielded : label[r] = "authentic"
+C02_Authentic == \A r \in yielded : Valid(Kind, label[r])
 =============================================================================
